@@ -58,6 +58,15 @@ def main():
         if rc != 0:
             print("PATCH DOES NOT APPLY:", out)
             return 3
+        cpatch0 = os.path.join(src, "c_patch.diff")
+        if os.path.exists(cpatch0):
+            rc, out = sh("patch -p0 orso/compute/compiled.c < %s && cd orso/compute && gcc -shared -fPIC -O1 "
+                         "-I/root/.pyenv/versions/3.12.1/include/python3.12 -I/venv/lib/python3.12/site-packages/numpy/_core/include "
+                         "-o compiled.cpython-312-x86_64-linux-gnu.so compiled.c" % cpatch0, cwd=wt)
+            if rc != 0:
+                print("C PATCH DOES NOT APPLY/BUILD:", out[-2000:])
+                return 3
+            ran.append("compiled.c patched and the extension rebuilt with gcc")
         rc1, out1 = sh("/venv/bin/python _demo_seeded.py", cwd=wt, timeout=900)
         ran.append("demo with the change -> exit %d" % rc1)
         summary, failed = suite_result(wt)
@@ -74,43 +83,83 @@ def main():
         shutil.rmtree(wt, ignore_errors=True)
     confirmed = rc0 == 0 and rc1 != 0 and suite_ok
     print("demo unchanged=%d changed=%d suite=%s confirmed=%s" % (rc0, rc1, summary, confirmed))
-    # now the check, on /repo itself
-    rc, out = sh("git -C /repo status --porcelain")
-    assert out.strip() == "", "/repo is not clean: " + out
-    rc, out = sh("git -C /repo apply %s" % patch)
-    assert rc == 0, out
-    t = time.time()
-    # the evidence file of a run against a changed tree must not replace the one from the unchanged tree
-    ev = os.path.join(VERIF, "evidence", prop + ".json")
-    ev_saved = open(ev).read() if os.path.exists(ev) else None
-    try:
-        crc, cout = sh("./check %s %s" % (prop, tier), cwd=VERIF, timeout=3000)
-    finally:
-        sh("git -C /repo checkout -- .")
-        if ev_saved is not None:
-            open(ev, "w").write(ev_saved)
-    wall = time.time() - t
+    isolated = "--isolated" in sys.argv
+    if isolated:
+        # the check runs from a private copy of /verif (with its build output) against a private
+        # worktree of /repo carrying the change, so several changes can be examined at once and
+        # neither /repo nor /verif's evidence is touched
+        vcopy = "/tmp/vv/%s" % sid
+        wt2 = "/tmp/v/%s-chk" % sid
+        sh("git -C /repo worktree remove --force %s" % wt2)
+        shutil.rmtree(wt2, ignore_errors=True)
+        shutil.rmtree(vcopy, ignore_errors=True)
+        os.makedirs("/tmp/vv", exist_ok=True)
+        rc, out = sh("rsync -a --exclude .git --exclude replays %s/ %s/" % (VERIF, vcopy))
+        assert rc == 0, out
+        rc, out = sh("git -C /repo worktree add -q --detach %s HEAD" % wt2)
+        assert rc == 0, out
+        for f in ("compiled.c", "compiled.cpython-312-x86_64-linux-gnu.so"):
+            shutil.copy2("/repo/orso/compute/" + f, wt2 + "/orso/compute/" + f)
+        rc, out = sh("git apply %s" % patch, cwd=wt2)
+        assert rc == 0, out
+        cpatch = os.path.join(src, "c_patch.diff")
+        if os.path.exists(cpatch):
+            rc, out = sh("patch -p0 orso/compute/compiled.c < %s" % cpatch, cwd=wt2)
+            assert rc == 0, out
+        t = time.time()
+        try:
+            crc, cout = sh("ORSO_REPO=%s ./check %s %s" % (wt2, prop, tier), cwd=vcopy, timeout=3000)
+            check_root = vcopy
+            viol_ = [l for l in cout.split("\n") if l.startswith("VIOLATION")]
+            for l in viol_[:3]:
+                m_ = re.search(r"replay=(\S+)", l)
+                if m_ and os.path.exists(os.path.join(vcopy, m_.group(1))):
+                    os.makedirs(os.path.join(VERIF, "seeded", sid), exist_ok=True)
+                    shutil.copy(os.path.join(vcopy, m_.group(1)), os.path.join(VERIF, "seeded", sid, os.path.basename(m_.group(1))))
+        finally:
+            sh("git -C /repo worktree remove --force %s" % wt2)
+            shutil.rmtree(wt2, ignore_errors=True)
+        wall = time.time() - t
+    else:
+        # now the check, on /repo itself
+        rc, out = sh("git -C /repo status --porcelain")
+        assert out.strip() == "", "/repo is not clean: " + out
+        rc, out = sh("git -C /repo apply %s" % patch)
+        assert rc == 0, out
+        t = time.time()
+        # the evidence file of a run against a changed tree must not replace the one from the unchanged tree
+        ev = os.path.join(VERIF, "evidence", prop + ".json")
+        ev_saved = open(ev).read() if os.path.exists(ev) else None
+        try:
+            crc, cout = sh("./check %s %s" % (prop, tier), cwd=VERIF, timeout=3000)
+        finally:
+            sh("git -C /repo checkout -- .")
+            if ev_saved is not None:
+                open(ev, "w").write(ev_saved)
+        wall = time.time() - t
+        check_root = VERIF
     viol = [l for l in cout.split("\n") if l.startswith("VIOLATION")]
     ran.append("./check %s %s with the change applied to /repo -> exit %d in %.0fs; %s" % (prop, tier, crc, wall, "; ".join(viol[:3])))
     print("check exit=%d %s" % (crc, viol[:3]))
     replay_info = None
     if viol:
         m = re.search(r"replay=(\S+)", viol[0])
-        if m and os.path.exists(os.path.join(VERIF, m.group(1))):
-            rp = json.load(open(os.path.join(VERIF, m.group(1))))
+        if m and os.path.exists(os.path.join(check_root, m.group(1))):
+            rp = json.load(open(os.path.join(check_root, m.group(1))))
             replay_info = {"kind": rp.get("kind"), "case": rp.get("case"), "clause": (rp.get("failure") or {}).get("clause"),
                            "theorems_that_no_longer_check": rp.get("theorems_that_no_longer_check")}
     dst = os.path.join(VERIF, "seeded", sid)
     os.makedirs(dst, exist_ok=True)
-    shutil.copy(patch, os.path.join(dst, "patch.diff"))
-    shutil.copy(demo, os.path.join(dst, "demo.py"))
+    if os.path.abspath(src) != os.path.abspath(dst):
+        shutil.copy(patch, os.path.join(dst, "patch.diff"))
+        shutil.copy(demo, os.path.join(dst, "demo.py"))
     meta_out = {
         "property": prop,
         "seeded_id": sid,
         "summary": meta.get("summary"),
         "needs_to_manifest": meta.get("needs_to_manifest"),
         "files": meta.get("files"),
-        "author_ran": meta.get("ran"),
+        "author_ran": meta.get("ran") or meta.get("author_ran"),
         "confirmed_independently": confirmed,
         "verifier_ran": ran,
         "check_tier": tier,
@@ -120,6 +169,12 @@ def main():
         "replay": replay_info,
     }
     json.dump(meta_out, open(os.path.join(dst, "meta.json"), "w"), indent=1, default=repr)
+    if os.path.exists(os.path.join(src, "c_patch.diff")) and os.path.abspath(src) != os.path.abspath(dst):
+        shutil.copy(os.path.join(src, "c_patch.diff"), os.path.join(dst, "c_patch.diff"))
+    with open(os.path.join(dst, "check_output.txt"), "w") as f:
+        f.write(cout[-6000:])
+    if isolated:
+        shutil.rmtree("/tmp/vv/%s" % sid, ignore_errors=True)
     return 0
 
 
